@@ -5,7 +5,7 @@ import copy
 import json
 
 from ..oracles import reg as oreg
-from ..oracles.core import IbanOracle, canonical_digits, load_table, merge, repo_root
+from ..oracles.core import COMPONENTS, IbanOracle, canonical_digits, load_table, merge, repo_root
 from ..runner import HarnessError, Rec
 from .. import gens
 
@@ -124,7 +124,7 @@ ZZ_SPEC = {"country": "ZZ", "in_sepa_zone": False, "bban_spec": "4!a6!n2!c", "bb
 def gen_iban_overlay(rng, bundled):
     """One consistent overlay document for the IBAN registry (semantic changes + harmless extra keys)."""
     doc = {}
-    kinds = rng.sample(["new", "lengthen", "move", "extra", "sepa", "spec_same_len", "drop_in"], rng.randrange(1, 4))
+    kinds = rng.sample(["new", "lengthen", "move", "extra", "sepa", "spec_same_len", "drop_in", "defaults"], rng.randrange(1, 4))
     ccs = sorted(bundled)
     # a free-form key under one fixed country whose value is a dictionary in some files and a scalar in others: with three or
     # more files the name-ordered left fold is the only order that gives the right answer (dict, scalar, dict ...)
@@ -134,6 +134,13 @@ def gen_iban_overlay(rng, bundled):
         if kind == "new":
             cc = rng.choice(["ZZ", "QQ", "XA"])
             spec = copy.deepcopy(ZZ_SPEC)
+            size = rng.choice(["usual", "usual", "longest", "short"])
+            if size == "longest":        # 34 characters, the longest IBAN ISO 13616 allows (no bundled country has it)
+                spec.update(bban_spec="4!a6!n20!c", bban_length=30, iban_spec="ZZ2!n4!a6!n20!c", iban_length=34,
+                            positions={"bank_code": [0, 4], "account_code": [4, 10], "account_type": [10, 12], "account_id": [12, 30]})
+            elif size == "short":
+                spec.update(bban_spec="4!a3!n", bban_length=7, iban_spec="ZZ2!n4!a3!n", iban_length=11,
+                            positions={"bank_code": [0, 4], "account_code": [4, 7]})
             spec["country"] = cc
             spec["iban_spec"] = cc + spec["iban_spec"][2:]
             doc[cc] = spec
@@ -157,6 +164,13 @@ def gen_iban_overlay(rng, bundled):
         elif kind == "extra":
             cc = rng.choice(ccs)
             doc.setdefault(cc, {})["x_note"] = {"k": rng.randrange(5), "nested": {"deep": [1, 2]}}
+        elif kind == "defaults":
+            # a default value for a component the country has no position for (the bundled data carry default_currency_code
+            # for two countries that do have the field): the component stays empty
+            cc = rng.choice(ccs)
+            free = [c for c in COMPONENTS if c not in bundled[cc].get("positions", {})]
+            for c in rng.sample(free, min(len(free), 2)):
+                doc.setdefault(cc, {})["default_" + c] = rng.choice(["EUR", "0", "X1"])
         elif kind == "sepa":
             cc = rng.choice(ccs)
             doc.setdefault(cc, {})["in_sepa_zone"] = not bundled[cc].get("in_sepa_zone", False)
@@ -189,7 +203,9 @@ def gen_bank_files(rng):
                 e["primary"] = rng.random() < 0.5
             entries.append(e)
         name = f"{li}banks" + (".v2.json" if v2 else ".json")
-        if rng.random() < 0.3:
+        if rng.random() < 0.25:
+            name = rng.choice(ODD_STEMS) + li + (".v2.json" if v2 else ".json")
+        elif rng.random() < 0.3:
             # extra dotted segments in the name: "xbanks.local.v2.json" is still a v2 file, "xbanks.v2.old.json" is not
             name = f"{li}banks.local" + (".v2.json" if v2 else ".json")
         if v2 and rng.random() < 0.3:
@@ -208,13 +224,13 @@ def gen_bank_files(rng):
     return files
 
 
-def run_copy(rec: Rec, iban_files, bank_files, seed, where):
+def run_copy(rec: Rec, iban_files, bank_files, seed, where, other_files=None):
     import random
     from ..engines.pkgcopy import PackageCopy
     rng = random.Random(f"{seed}:C18:probe")
-    inp = {"iban_files": iban_files, "bank_files": bank_files, "where": "copy:" + str(where)}
+    inp = {"iban_files": iban_files, "bank_files": bank_files, "where": "copy:" + str(where), "other_files": other_files or {}}
     bundled = _BUNDLED["table"]
-    with PackageCopy(repo_root(), iban_files=iban_files, bank_files=bank_files) as pc:
+    with PackageCopy(repo_root(), iban_files=iban_files, bank_files=bank_files, other_files=other_files) as pc:
         eff = load_table(pc.iban_dir)
         banks = oreg.load_banks(pc.bank_dir)
         idx = oreg.index_by_code(banks)
@@ -246,6 +262,8 @@ def run_copy(rec: Rec, iban_files, bank_files, seed, where):
                 raise HarnessError(f"reference rejects its own construction under the effective table: {t_new}")
             probes.append(("accept_effective", cc, t_new))
             ops.append({"op": "iban_info", "text": t_new})
+            probes.append(("assemble_effective", cc, t_new))
+            ops.append({"op": "from_bban", "cc": cc, "bban": t_new[4:]})
             if cc in bundled:
                 t_old = g_old.iban(cc, rng)
                 if not o_eff.accept_norm(t_old):
@@ -291,6 +309,10 @@ def run_copy(rec: Rec, iban_files, bank_files, seed, where):
                 if r["ok"].get("in_sepa_zone") != eff[cc].get("in_sepa_zone"):
                     rec.fail("scalar_not_overlaid", "validation_follows_effective_table", {**inp, "iban": text},
                              eff[cc].get("in_sepa_zone"), r["ok"].get("in_sepa_zone"))
+            elif kind == "assemble_effective":
+                if r.get("ok") != text:
+                    rec.fail(f"effective_valid_not_assembled|{'new' if cc not in bundled else 'changed' if cc in changed else 'untouched'}",
+                             "generation_follows_effective_table", {**inp, "cc": cc, "bban": text[4:], "spec": eff[cc]}, text, r)
             else:
                 if "ok" in r:
                     rec.fail("bundled_only_valid_accepted", "validation_follows_effective_table",
@@ -325,12 +347,32 @@ def bundled():
     return _BUNDLED
 
 
+# file names are whatever the file system allows: hidden files, digits first, blanks, glob metacharacters, non-ASCII letters -
+# all of them end in ".json" and take part, in code-point order of the whole name (no capitals: a case-insensitive reading of
+# "file-name order" would place them differently)
+ODD_STEMS = [".hidden", ".local", "0first", "sp ace", "x[1]", "~tilde", "zzz\u00fc", "-dash"]
+
+
+def distractors(rng):
+    """Files that are not registry files (other suffix, sub-directory): their content must not reach the effective data."""
+    bad_iban = json.dumps({"DE": {"bban_length": 3, "x_distractor": True}, "QD": dict(ZZ_SPEC, country="QD")})
+    bad_bank = json.dumps([{"country_code": "DE", "bank_code": "99999999", "name": "DISTRACTOR", "short_name": "D", "bic": "DDDDDEFF",
+                            "primary": True}])
+    pool = [("iban_registry/overwrite.json.bak", bad_iban), ("iban_registry/notes.txt", bad_iban), ("iban_registry/json", bad_iban),
+            ("iban_registry/old/overlay.json", bad_iban), ("iban_registry/overlay.jsonl", bad_iban),
+            ("bank_registry/extra.json.disabled", bad_bank), ("bank_registry/backup/banks.json", bad_bank),
+            ("bank_registry/banks.json~", bad_bank)]
+    return dict(rng.sample(pool, rng.randrange(0, 4)))
+
+
 def gen_copy_config(rng):
     b = bundled()["table"]
     n = rng.randrange(1, 5)
     # names sort before ("a..."), between ("h...": generated < h < overwrite) and after ("z...") the bundled files
-    prefixes = rng.sample(["aoverlay", "hoverlay", "poverlay", "zoverlay", "zzlast"], n)
+    prefixes = rng.sample(["aoverlay", "hoverlay", "poverlay", "zoverlay", "zzlast"] + ODD_STEMS, n)
     iban_files = {f"{p}.json": gen_iban_overlay(rng, b) for p in prefixes}
+    for i, (name, doc) in enumerate(sorted(iban_files.items())):
+        doc.setdefault("DE", {})[f"x_from_file_{i}"] = name         # every file leaves a trace of its own in the table
     if rng.random() < 0.5:
         # names that extend the stem of another file (also of a bundled one): 'overwrite-local.json' < 'overwrite.json'
         stem = rng.choice(["overwrite", "generated", prefixes[0]])
@@ -353,7 +395,12 @@ def shard_copy(arg):
     rec = Rec()
     bundled()
     iban_files, bank_files = gen_copy_config(rng)
-    info = run_copy(rec, iban_files, bank_files, f"{seed}:{i}", i)
+    others = distractors(rng)
+    info = run_copy(rec, iban_files, bank_files, f"{seed}:{i}", i, others)
+    if others:
+        rec.classes["copy-config-with-non-registry-files"] += 1
+    if any(n[0] in ".0~-" or not n.isascii() or " " in n or "[" in n for n in list(iban_files) + list(bank_files)):
+        rec.classes["copy-config-unusual-file-name"] += 1
     rec.evals += 2 + info.get("probes", 0)
     rec.classes["copy-config"] += 1
     if info.get("files", 0) >= 3:
@@ -377,7 +424,7 @@ def replay(rec, case):
     elif "doc" in i:
         check_v2(rec, i["doc"])
     else:
-        run_copy(rec, i["iban_files"], i["bank_files"], 1, "replay")
+        run_copy(rec, i["iban_files"], i["bank_files"], 1, "replay", i.get("other_files"))
 
 
 def shard_identity(arg):
@@ -414,7 +461,8 @@ def run(ctx):
                        "registry.get('bank') == reference list (order-sensitive); an IBAN valid under the effective table is "
                        "accepted and its components are read at the overlaid positions; one valid only under the bundled table is "
                        "rejected; lookups find banks of added files; countries no overlay names are identical to the bundled ones.")
-    ctx.assumptions = ["file names are lower-case ASCII; 'file-name order' is read as code-point order of the complete file name "
+    ctx.assumptions = ["'file-name order' is read as code-point order of the complete file name; every name ending in '.json' directly in "
+                       "the directory takes part (hidden names, names with blanks or glob metacharacters included), nothing else does "
                        "(so 'x-more.json' < 'x.json' < 'x_more.json'); no names are generated on which case-insensitive or natural "
                        "order would differ from it",
                        "overlays are internally consistent (C17's predicate); key order of merged dicts is not compared"]
@@ -426,4 +474,5 @@ def run(ctx):
     ctx.rec.merge(shard_identity(None))
     ctx.pmap(shard_copy, [(i, ctx.seed) for i in range(ctx.pick(48, 1200))])
     ctx.require_classes("merge-2-docs-conflict", "merge-3-docs-conflict", "v2-doc", "copy-config", "copy-config-3plus-files",
-                        "copy-config-with-v2", "copy-config-semantic-change", "bundled-table")
+                        "copy-config-with-v2", "copy-config-semantic-change", "bundled-table", "copy-config-unusual-file-name",
+                        "copy-config-with-non-registry-files")
